@@ -122,6 +122,9 @@ pub enum BlockM {
     Mode(ModeM),
     /// `>> key: value` (only when the recipe has no front matter)
     Meta(String, String),
+    /// a line starting with `>>` in a recipe WITH front matter: there it is an ordinary one-line step
+    /// whose text is the whole line
+    StepLine(String),
 }
 
 #[derive(Debug, Clone, PartialEq, Serialize, Deserialize)]
